@@ -10,7 +10,7 @@ from pymap.concurrent import Event
 from pymap.config import IMAPConfig
 from pymap.context import socket_info, connection_exit
 from pymap.exceptions import NotAllowedError, NotSupportedError, \
-    CloseConnection, MailboxNotFound
+    CloseConnection, MailboxNotFound, MailboxReadOnly
 from pymap.fetch import MessageAttributes
 from pymap.interfaces.login import LoginInterface
 from pymap.interfaces.session import SessionInterface
@@ -351,6 +351,10 @@ class ConnectionState:
         return resp, updates
 
     async def do_store(self, cmd: StoreCommand) -> _CommandRet:
+        if self.selected.readonly:
+            # refuse before the selection is prepared for the update, a
+            # failed command leaves that preparation behind
+            raise MailboxReadOnly()
         if not cmd.uid:
             self.selected.hide_expunged = True
         if cmd.silent:
